@@ -315,7 +315,6 @@ func (c *caseCtx) runA() {
 	w := c.w
 	var largeBeforeDup []blob.Ref
 	wholeDone := map[blob.Ref]bool{}
-	steps := 0
 	live := func(inst *instance, call inject.Call, acked map[int]bool, inflight int, opIdx int) {
 		// label of the write that just completed
 		label := "upload-write"
@@ -332,11 +331,6 @@ func (c *caseCtx) runA() {
 				wholeDone[br] = true
 			}
 		}
-		if label == "upload-write" && steps%3 != 0 && !r.Thorough() {
-			steps++
-			return // plain chunk uploads: every third in the quick tier
-		}
-		steps++
 		st := &site{r: r, w: w, Variant: "live", Phase: "after-" + label, Stage: "live", K: call.Index, lw: inst.lw, zc: &c.zc}
 		present := map[blob.Ref][]byte{}
 		for i := range acked {
@@ -729,6 +723,10 @@ func genCases(r *ev.Run) []caseSpec {
 	add("duplicate-file", 0, "schema-last",
 		fileSpec{Name: "first-name.bin", Size: 600*kib + rng.Intn(200*kib), Content: "random"},
 		fileSpec{Name: "another name.dat", Content: "as:first-name.bin"})
+	add("repeated-chunks", 1<<20, "schema-middle", fileSpec{Name: "periodic-multi.bin", Size: 1900*kib + rng.Intn(300*kib), Content: "periodic", Period: 100*kib + rng.Intn(150*kib)})
+	add("duplicate-file", 1<<20, "schema-first",
+		fileSpec{Name: "d1.bin", Size: 1500*kib + rng.Intn(300*kib), Content: "random"},
+		fileSpec{Name: "d1 copy with another, longer file name.bin", Content: "as:d1.bin"})
 	// a zip of exactly two chunks whose size estimate fails (a long file name widens the gap
 	// between the estimate and the real zip size)
 	add("two-chunk-zips", 0, "schema-last", fileSpec{Name: strings.Repeat("long-name-", 20) + ".bin", Size: 600*kib + rng.Intn(300*kib), Content: "random"})
@@ -882,9 +880,8 @@ func run(r *ev.Run) {
 						// state is still restarted in fast and full mode
 						continue
 					}
-					// the re-upload + third restart: every state with zips; every fourth (quick) or
-					// second (thorough) state without
-					deep := packedState || si%r.Pick(4, 2) == 0
+					// the re-upload + third restart: every state with zips; every second state without
+					deep := packedState || si%2 == 0
 					p.Go(func() { c.auditState(st, v, deep) })
 				}
 			}
